@@ -74,6 +74,10 @@ func (p ReceiverEstimatedMaximumBitrate) MarshalTo(buf []byte) (n int, err error
 		return 0, errPacketTooShort
 	}
 
+	if len(p.SSRCs) > math.MaxUint8 {
+		return 0, errTooManySources
+	}
+
 	buf[0] = 143 // v=2, p=0, fmt=15
 	buf[1] = 206
 
